@@ -301,6 +301,10 @@ func ConvertString(octetString ...string) ([]string, error) {
 
 	for _, s := range octetString {
 		data := []byte(s)
+		if len(data) < startOfDataIdx+1 {
+			// we need at least the tag and one length byte
+			return nil, fmt.Errorf("%s: %q is too short to be a ber encoded string: %w", op, s, ErrInvalidParameter)
+		}
 
 		switch {
 		case
@@ -309,6 +313,9 @@ func ConvertString(octetString ...string) ([]string, error) {
 			_, strDataLen, err := readLength(data[startOfDataIdx:])
 			if err != nil {
 				return nil, err
+			}
+			if len(data) < startOfDataIdx+strDataLen {
+				return nil, fmt.Errorf("%s: %q has a truncated length: %w", op, s, ErrInvalidParameter)
 			}
 			converted = append(converted, string(data[(startOfDataIdx+strDataLen):]))
 
@@ -325,6 +332,9 @@ func ConvertString(octetString ...string) ([]string, error) {
 // copied directly from github.com/go-asn1-ber/asn1-ber@v1.5.4/length.go
 // it has an MIT license: https://github.com/go-asn1-ber/asn1-ber/blob/master/LICENSE
 func readLength(bytes []byte) (length int, read int, err error) {
+	if len(bytes) == 0 {
+		return 0, 0, errors.New("missing length byte")
+	}
 	// length byte
 	b := bytes[0]
 	read++
@@ -354,6 +364,9 @@ func readLength(bytes []byte) (length int, read int, err error) {
 		// Accumulate into a 64-bit variable
 		var length64 int64
 		for i := 0; i < lengthBytes; i++ {
+			if read >= len(bytes) {
+				return 0, read, errors.New("long-form length is truncated")
+			}
 			b = bytes[read]
 			read++
 
